@@ -81,7 +81,7 @@ func (m *Thread) prefixLength() int {
 func (m *Thread) sendInterest(name enc.Name, params enc.Wire) {
 	config := ndn.InterestConfig{
 		MustBeFresh: true,
-		Nonce:       utils.IdPtr(rand.Uint64()),
+		Nonce:       utils.IdPtr(uint64(rand.Uint32())),
 	}
 	interest, err := spec.Spec{}.MakeInterest(
 		name, &config, params, sec.NewSha256IntSigner(m.timer))
